@@ -35,6 +35,11 @@ type Input struct {
 	Finisher   string `json:"finisher"`    // update updates_map updates_struct update_column update_columns delete
 	PK         int64  `json:"pk"`          // 0 = model value without primary key
 	QueryFirst bool   `json:"query_first"` // Count on the same handle before the write
+	// ReadKind: what QueryFirst runs through the handle: "" Count | noop_update UpdateColumns of an
+	// empty map (sends nothing). AfterRead: how the write handle is derived from the used handle:
+	// "" the handle itself | session Session(&Session{}) | with_context WithContext(ctx)
+	ReadKind  string `json:"read_kind,omitempty"`
+	AfterRead string `json:"after_read,omitempty"`
 	// Target: how the rows' table / model value reach the finisher.
 	//  "" (model): Model(&T{ID:pk}) + finisher, Delete(&T{ID:pk})
 	//  table_only: Table("t") and no model at all (no schema is parsed): Update / Updates(map) /
@@ -272,13 +277,26 @@ func (e *env) run(in Input) Obs {
 			tx = tx.Session(&gorm.Session{SkipHooks: true, QueryFields: true, FullSaveAssociations: true})
 		case "session_plain":
 			tx = tx.Session(&gorm.Session{})
+		case "session_dryrun":
+			// nothing is sent either way; a chain without condition is still refused
+			tx = tx.Session(&gorm.Session{DryRun: true})
 		}
 	}
 	if in.QueryFirst {
 		// the same (non-Session) handle is first used for a read, then for the write
 		var n int64
 		tx = tx.Model(model0(in))
-		tx.Count(&n)
+		if in.ReadKind == "noop_update" {
+			tx.UpdateColumns(map[string]interface{}{})
+		} else {
+			tx.Count(&n)
+		}
+		switch in.AfterRead {
+		case "session":
+			tx = tx.Session(&gorm.Session{})
+		case "with_context":
+			tx = tx.WithContext(context.Background())
+		}
 	}
 	model := func() interface{} {
 		if in.Soft {
@@ -321,6 +339,20 @@ func (e *env) run(in Input) Obs {
 				res = tx.Model(model()).Updates(whr.TS{ID: 77, Mark: 7})
 			} else {
 				res = tx.Model(model()).Updates(whr.T{ID: 77, Mark: 7})
+			}
+		case "updates_structptr_pk":
+			// the update value is a pointer to another value of the model's own type: its key is
+			// an assignment, not a condition
+			if in.Soft {
+				res = tx.Model(model()).Updates(&whr.TS{ID: 77, Mark: 7})
+			} else {
+				res = tx.Model(model()).Updates(&whr.T{ID: 77, Mark: 7})
+			}
+		case "update_columns_structptr_pk":
+			if in.Soft {
+				res = tx.Model(model()).UpdateColumns(&whr.TS{ID: 77, Mark: 7})
+			} else {
+				res = tx.Model(model()).UpdateColumns(&whr.T{ID: 77, Mark: 7})
 			}
 		case "update_column":
 			res = tx.Model(model()).UpdateColumn("mark", 7)
@@ -481,7 +513,7 @@ func term(in Input, o Obs) string {
 
 func shape(in Input) string {
 	var sb strings.Builder
-	fmt.Fprintf(&sb, "%v|%s|%s|%v|%v|%s|%v|", in.Soft, in.Allow, in.Finisher, in.PK != 0, in.QueryFirst, in.Target, in.InlineLast)
+	fmt.Fprintf(&sb, "%v|%s|%s|%v|%v|%s|%v|", in.Soft, in.Allow, in.Finisher, in.PK != 0, in.QueryFirst, in.Target+"/"+in.ReadKind+"/"+in.AfterRead, in.InlineLast)
 	for _, s := range in.Steps {
 		if s.Call != nil {
 			sb.WriteString(whr.Shape([]whr.Call{*s.Call}))
@@ -506,7 +538,7 @@ func alphabet() []Step {
 		{Call: &whr.Call{Kind: "where", Unit: whr.Unit{Form: "group"}}},
 		{Call: &whr.Call{Kind: "or", Unit: whr.Unit{Form: "group"}}},
 		{Deco: "empty_slice"}, {Deco: "order"}, {Deco: "limit"}, {Deco: "unscoped"}, {Deco: "select"}, {Deco: "omit"}, {Deco: "table"}, {Deco: "scopes"},
-		{Deco: "session_pu"}, {Deco: "session_misc"}, {Deco: "session_plain"},
+		{Deco: "session_pu"}, {Deco: "session_misc"}, {Deco: "session_plain"}, {Deco: "session_dryrun"},
 		{Deco: "offset"}, {Deco: "distinct"}, {Deco: "group"}, {Deco: "joins_raw"}, {Deco: "returning"}, {Deco: "locking"},
 		{Deco: "with_context"}, {Deco: "set"}, {Deco: "scope_empty_where"},
 	}
@@ -516,7 +548,7 @@ var finishers = []string{"update", "updates_map", "updates_struct", "updates_str
 
 // update values that name the primary-key column: generated only where the chain must be rejected
 // (executed on several rows they end in a UNIQUE violation, which is not this property's business)
-var pkFinishers = []string{"update_pk", "updates_map_pk", "update_columns_pk", "updates_struct_pk"}
+var pkFinishers = []string{"update_pk", "updates_map_pk", "update_columns_pk", "updates_struct_pk", "updates_structptr_pk", "update_columns_structptr_pk"}
 var allows = []string{"off", "config", "session"}
 var targets = []struct {
 	name string
@@ -630,6 +662,12 @@ func main() {
 						// where the write must be rejected before anything is built
 						if len(ch) <= 1 && pk == 0 && al == "off" && f != "updates_struct_nomodel" {
 							add("enum", Input{Soft: soft, Allow: al, Finisher: f, PK: pk, Steps: ch, QueryFirst: true})
+							for _, rk := range []string{"", "noop_update"} {
+								for _, ar := range []string{"session", "with_context"} {
+									add("enum", Input{Soft: soft, Allow: al, Finisher: f, PK: pk, Steps: ch, QueryFirst: true, ReadKind: rk, AfterRead: ar})
+								}
+							}
+							add("enum", Input{Soft: soft, Allow: al, Finisher: f, PK: pk, Steps: ch, QueryFirst: true, ReadKind: "noop_update"})
 						}
 					}
 				}
@@ -690,7 +728,7 @@ func main() {
 		}
 		in.Steps = append(in.Steps, Step{Call: &whr.Call{Kind: lib.Pick(r, []string{"where", "where", "not"}), Unit: g.GenUnit(1, false, false)}})
 		if i%3 == 0 {
-			in.Steps = append(in.Steps, lib.Pick(r, []Step{{Deco: "order"}, {Deco: "limit"}, {Deco: "session_plain"}, {Deco: "with_context"}}))
+			in.Steps = append(in.Steps, lib.Pick(r, []Step{{Deco: "order"}, {Deco: "limit"}, {Deco: "session_plain"}, {Deco: "with_context"}, {Deco: "session_dryrun"}}))
 		}
 		add("read-then-delete", in)
 	}
@@ -749,6 +787,7 @@ func main() {
 			// where the Delete is a real DELETE (a soft delete is an UPDATE and inherits the read's
 			// FROM clause, which SQLite refuses: misuse of a chain handle, not this property's matter)
 			in.QueryFirst = true
+			in.AfterRead = lib.Pick(r, []string{"", "session", "with_context"})
 			if in.Soft && !hasUnscoped(in.Steps) {
 				in.Steps = append([]Step{{Deco: "unscoped"}}, in.Steps...)
 			}
